@@ -42,6 +42,8 @@ if os.environ.get('PWVERIF_TRACE') == '1':
             # a graceful terminate REQUEST: it reaches the main thread only through the child's own control thread
             me = frame.f_locals.get('self')
             ct = getattr(me, '_ctrl_thread_loc', None) or getattr(me, '_ctrl_thread', None)
+            if ct is not None:
+                ct.join(0.3)      # a control thread that has just been released needs a moment to finish: make the outcome definite
             act = 'AWTE' if (ct is not None and ct.is_alive()) else None
         if act == 'AWTE':
             from pyworkers.worker import WorkerTerminatedError
